@@ -6,6 +6,7 @@ import json
 import logging
 import os
 import sys
+import zlib
 
 sys.path.insert(0, os.path.dirname(os.path.dirname(os.path.abspath(__file__))))
 sys.path.insert(0, os.path.dirname(os.path.abspath(__file__)))
@@ -23,6 +24,17 @@ HUGE = '9' * 5000
 
 class VerifBoomError(Exception):
     pass
+
+
+class VerifTypedError(exceptions.JsonRpcError):
+    """a typed error class with its own code and message: instances may still carry their own"""
+    code = 3999
+    message = 'typed'
+
+
+# how the method raises its protocol error: through the base class, or through a typed class whose instance overrides code / message
+CUR = __import__('threading').local()
+PERR_CLASSES = [exceptions.JsonRpcError, exceptions.ServerError, VerifTypedError]
 
 
 EXC = {'ValueError': ValueError, 'KeyError': KeyError, 'TypeError': TypeError, 'AssertionError': AssertionError,
@@ -142,7 +154,6 @@ def a_out(ret):
 def build(cfg, ev):
     is_async = cfg['kind'] in ('async', 'asyncseq')      # asyncseq: AsyncDispatcher(concurrent_batch=False)
     coro = cfg['flavour'] in ('coro', 'wrapcoro')
-    perr = cfg['perr']
     exc_t = EXC[cfg['exc']]
 
     started = [0]
@@ -165,8 +176,9 @@ def build(cfg, ev):
             if coro:
                 return None
         if name == 'm_perr':
+            perr = getattr(CUR, 'perr', None) or cfg['perr']    # request histories change it between requests (per thread)
             data = UNSET if perr['data'] == ABSENT else conc(perr['data'])
-            raise exceptions.JsonRpcError(code=conc(perr['code']), message=conc(perr['message']), data=data)
+            raise PERR_CLASSES[cfg.get('_perrcls', 0)](code=conc(perr['code']), message=conc(perr['message']), data=data)
         if name == 'm_exc':
             raise exc_t(MARKER)
         return received
@@ -285,6 +297,36 @@ def build(cfg, ev):
     never.__name__ = 'int'
     setattr(Boom, 'int', never)
     d.registry.view(Boom)
+    if cfg.get('_style') == 'view' and cfg['flavour'] != 'wrapcoro':
+        # the same four methods as members of a class based view (a new view object per request)
+        if coro:
+            class Api(ViewMixin):
+                async def ok(self, a=None, b=None):
+                    return await run_coro('m_ok', {'a': a, 'b': b})
+
+                async def one(self, a):
+                    return await run_coro('m_one', {'a': a, 'only': 'one'})
+
+                async def perr(self, a=None, b=None):
+                    return await run_coro('m_perr', {'a': a, 'b': b})
+
+                async def exc(self, a=None, b=None):
+                    return await run_coro('m_exc', {'a': a, 'b': b})
+        else:
+            class Api(ViewMixin):
+                def ok(self, a=None, b=None):
+                    return body('m_ok', {'a': a, 'b': b})
+
+                def one(self, a):
+                    return body('m_one', {'a': a, 'only': 'one'})
+
+                def perr(self, a=None, b=None):
+                    return body('m_perr', {'a': a, 'b': b})
+
+                def exc(self, a=None, b=None):
+                    return body('m_exc', {'a': a, 'b': b})
+        d.registry.view(Api)
+        return d
     d.add(ok, 'ok')
     d.add(one, 'one')
     d.add(perr_m, 'perr')
@@ -306,7 +348,8 @@ def call(d, is_async, text):
 
 def run(scn):
     ev = []
-    cfg = scn['cfg']
+    h = zlib.crc32(json.dumps(scn, sort_keys=True).encode())       # variants by content, not by position
+    cfg = dict(scn['cfg'], _style='view' if h % 2 else 'func', _perrcls=(h // 2) % 3)
     d = build(cfg, ev)
     text = render(scn['text'])
     try:
